@@ -758,8 +758,11 @@ mod serde {
         where
             A: SeqAccess<'de>,
         {
+            // the announced length comes from the input: never allocate more than a
+            // bounded amount up front (as serde's own collections do)
+            const MAX_PREALLOCATED: usize = 4096;
             let mut store: Store<I, P, H> = if let Some(size) = seq.size_hint() {
-                Store::with_capacity_and_default_hasher(size)
+                Store::with_capacity_and_default_hasher(size.min(MAX_PREALLOCATED))
             } else {
                 Store::with_default_hasher()
             };
